@@ -93,9 +93,14 @@ def pad_sweep(u, case):
             el = t.targs[0].t
             inner = el.d.name if isinstance(el, Adt) else ('z0' if isinstance(el, Array) and not isinstance(el.t, Str) else 's0')
             item = {'KZE2': lambda n: '#0(),#1(%d,),#2(%d,),' % (n % 256, 1000 + n), 'KZ8': lambda n: '{%d,%d,},{7,8,},' % (n, 1000 + n),
-                    'KZ6': lambda n: '{%d,},{9,},' % (n % 256), 'z0': lambda n: '[],[],[],', 's0': lambda n: '[],[],'}[inner]
+                    'KZ6': lambda n: '{%d,},{9,},' % (n % 256), 'z0': lambda n: '[],[],[],', 's0': lambda n: '[],[],',
+                    'KZ10': lambda n: '{{[%d,2,],},%d,},{{[3,4,],},5,},{{[6,7,],},8,},' % (n, n)}[inner]
             for n in range(64 if inner in ('KZ8', 'KZ6') else 16):
                 case(i, 0, '-', '{s"%s",[%s],%d,}' % ('41' * n, item(n), n % 256), 'pad-sweep')
+        # KD6 { s: String, a: KZ9 (align 128), t: u8, b: KZ9, v: Vec<KZ9> }: every padding length 0..127, twice in a row
+        if isinstance(t, Adt) and t.d.name == 'KD6' and not t.d.module:
+            for n in range(128):
+                case(i, 0, '-', '{s"%s",{%d,%d,},%d,{7,%d,},[{1,2,},{3,4,},],}' % ('41' * n, n % 256, 100000 + n, n % 256, n), 'pad-sweep')
         # KD4 { s: String, v: Vec<KZE2 (zero-copy enum, alignment from the 4-byte tag)>, t: u8 }
         if isinstance(t, Adt) and t.d.name.endswith('D4') and not t.d.module and t.d.name.startswith('K'):
             for n in range(16):
@@ -175,6 +180,13 @@ def gen_cases(prop, u, seed, tier, probe=None):
             b = bytes(rng.randrange(256) for _ in range(n))
             cs.add('xxh %s' % b.hex(), kind='xxh', family='xxh')
     elif prop == 'C07':
+        # the iterator writer hands the writer the bytes of the vector (same count), for every zero-copy item type
+        for k, t in enumerate(u.slice_elems):
+            cs.add('stype %d %s' % (k, t.term()), kind='stype', ti=None)
+        for k, t in enumerate(u.slice_elems):
+            vt = Seq('vec', t)
+            for v in dict.fromkeys(['[]'] + values_for(vt, rng, 4)):
+                cs.add('ser3 %d %s' % (k, v), kind='ser3', sk=k, val=v, family='iter-count')
         def sweep_case(i, r, mut, v, family):
             case(i, r, mut, v, family)
             cs.add('schema %d %s' % (i, v), kind='schema', ti=i, val=v, family='schema-pad-sweep')
@@ -324,6 +336,8 @@ def gen_cases(prop, u, seed, tier, probe=None):
             j, _, other = streams[(idx + 1) % len(streams)]
             if j != i: variants.append(('foreign', other))
             variants.append(('garbage', bytes(rng.randrange(256) for _ in range(64)).hex()))
+            if idx % 5 == 0:
+                variants.append(('unreadable', 'DIR'))     # a path that opens and has a length but cannot be read (a directory)
             for name, data in variants:
                 for l in ['full', 'mem', 'mmap', 'map']:
                     cs.add('leak %d %s %d %s' % (i, l, reps, data), kind='leak', ti=i, val=v, loader=l, variant=name, reps=reps, family='leak-' + name.rstrip('0123456789'))
@@ -512,6 +526,18 @@ def gen_cases(prop, u, seed, tier, probe=None):
             n = rng.choice([5, 10, 20, 50, 120]) if quick else rng.choice([10, 50, 200, 600])
             ops = ';'.join(rand_op() for _ in range(n))
             cs.add('cursor %s %s' % (rng.choice(['16', '32', '64']), ops), kind='cursor', family='random-long', val=ops)
+        # positions at and above 2^63 (legal, reachable only through set_position / seek; nothing is written there):
+        # relative seeks whose base or result is huge, reads there, the overflow corners
+        M63, I64MAX, U64MAX = 1 << 63, (1 << 63) - 1, (1 << 64) - 1
+        huge = [
+            'p:%d;sc:-1;r:4;sc:1;sc:1' % M63, 'sc:%d;sc:%d;sc:1;sc:2' % (I64MAX, I64MAX), 'w:0102;se:%d;se:%d;r:1' % (I64MAX, I64MAX),
+            'p:%d;sc:1;sc:-1;r:3' % U64MAX, 'ss:%d;sc:-%d;r:2' % (M63, M63), 'p:%d;se:-1;sc:%d' % (M63 + 5, I64MAX),
+            'w:0102030405;p:%d;sc:-%d;r:9' % (M63 + 2, M63), 'ss:%d;sc:%d;sc:%d' % (I64MAX, I64MAX, 2), 'p:%d;se:0;p:%d;sc:-%d' % (U64MAX, U64MAX, I64MAX),
+            'ss:%d;r:1;sc:0;se:-1' % U64MAX,
+        ]
+        for a in ['16', '64']:
+            for h in huge:
+                cs.add('cursor %s %s' % (a, h), kind='cursor', family='huge-positions', val=h)
         # the cases the property singles out
         for a in ['16', '32', '64']:
             cs.add('cursor %s p:100;w:0102' % a, kind='cursor', family='gap', val='gap')
